@@ -516,6 +516,27 @@ func meshTraversal(res *core.Result, r *rand.Rand, t *vmesh.Topology, labels vme
 		return
 	}
 	desc := fmt.Sprintf("%s labels=%d", t.Canon(), labels)
+	// Label space under pressure: at every router a further neighbour asks for a link under a switch label that
+	// one of the router's links already carries (two setups that derived the same label). Whether the registry
+	// refuses it or not, the labels the routes were built from must keep leading where they led.
+	if t.N >= 3 {
+		extra := env.NewIdentity(r, nil)
+		for _, nd := range ms.Nodes {
+			for nb, l := range nd.Links {
+				decoy := ms.AddStub(extra)
+				if err := ms.ConnectOneWay(nd.Idx, decoy.Idx, l.SwitchLabel()); err == nil {
+					res.Count("second_link_with_a_label_in_use_accepted", 1)
+				} else {
+					res.Count("second_link_with_a_label_in_use_refused", 1)
+				}
+				_ = nb
+				break
+			}
+		}
+		desc += " +links-asking-for-labels-in-use"
+	}
+	round := 0
+again:
 	send := func(from *vmesh.Node, dst netip.Addr, block []byte) (arrivedAt []int, arrived [][]byte, ok bool) {
 		blk := append([]byte(nil), block...)
 		first, err := m.NextRotateSwitchBlock(blk, 0)
@@ -574,6 +595,31 @@ func meshTraversal(res *core.Result, r *rand.Rand, t *vmesh.Topology, labels vme
 			res.Count("mesh_routes_traversed_and_reversed", 1)
 			res.Case(fmt.Sprintf("mesh|%s|%d|%d", desc, len(e.Path.Hops), len(e.Path.ForwardBlock)), true)
 		}
+	}
+	// Every link goes down and comes back under the same labels (a reconnect: address-derived labels are stable),
+	// everybody announces again, and the same traversals must work over the new link objects.
+	if round == 0 && len(t.Edges) > 0 && len(ms.Panics) == 0 {
+		round = 1
+		type lab struct{ ij, ji m.SwitchLabel }
+		labs := map[[2]int]lab{}
+		for _, e := range t.Edges {
+			labs[e] = lab{ms.Nodes[e[0]].Links[e[1]].SwitchLabel(), ms.Nodes[e[1]].Links[e[0]].SwitchLabel()}
+		}
+		for _, e := range t.Edges {
+			ms.Disconnect(e[0], e[1])
+			if err := ms.Connect(e[0], e[1], labs[e].ij, labs[e].ji); err != nil {
+				res.Inconcl("reconnect %v: %v", e, err)
+				return
+			}
+		}
+		time.Sleep(2 * time.Millisecond)
+		if err := ms.Converge(r, false); err != nil {
+			res.Inconcl("mesh did not converge after reconnects (C09's business): %v", err)
+			return
+		}
+		desc += " after-every-link-reconnected-with-the-same-labels"
+		res.Count("meshes_traversed_again_after_reconnects", 1)
+		goto again
 	}
 }
 
